@@ -1986,4 +1986,14 @@ theorem env_inv (s t : State) (h1 : inv s = true) (h : EnvStep s t) : inv t = tr
   · have : t.statusReplicas = s.statusReplicas := by rw [hcfg]
     rw [this]; exact (inv_elim s h1).2.2.2.2.2.1
 
+
+/-- `stale` unfolded -/
+theorem not_stale (s : State) (h : stale s = false) :
+    (∀ r ∈ s.olds, r.avail ≤ r.spec) ∧ (∀ r, s.new = some r → r.avail ≤ r.spec) := by
+  simp only [stale, List.any_eq_false, List.mem_append, decide_eq_true_eq, Int.not_lt] at h
+  refine ⟨fun r hr => ?_, fun r hr => ?_⟩
+  · have := h r (Or.inl hr); omega
+  · have := h r (Or.inr (by simp [hr])); omega
+
+
 end RV.DepSync
